@@ -11,7 +11,7 @@ package ioproxy
 //@ func proxyTo
 //@   props C20
 //@   requires s1 != nil && s2 != nil && cb != s1 && cb != s2
-//@   modifies ghost:calls, time, alloc, elems(byte)
+//@   modifies ghost:calls, ghost:calltime, time, alloc, elems(byte)
 //@   ensures closeboth: s1 != s2 ==> calls(s1) == old(calls(s1)) + 1 && calls(s2) == old(calls(s2)) + 1
 //@   ensures callback: cb != nil ==> calls(cb) == old(calls(cb)) + 1
 //
